@@ -267,12 +267,12 @@ def judge(ctx, c):
     ctx.case((c["kind"], nd, pair, "mirror"), nontrivial=True)
     wit = lambda: {"gen": c, "mirror": True}  # noqa
     b0 = dict(base)
-    b0.pop("inv_u10", None)
-    b0.pop("invit_u10", None)
-    ok, other = guarded(ctx, "C09.no-exception", lambda: outputs(b, c, E[..., idx], -wdir, base["z_used"], False), wit,
+    # the inversion (with and without direction iteration) of the mirror image too: U10 equal, direction negated
+    ok, other = guarded(ctx, "C09.no-exception", lambda: outputs(b, c, E[..., idx], -wdir, base["z_used"], with_inv), wit,
                         key="C09:exception")
     if ok:
         compare(ctx, "mirror", b0, other, lambda a: a[..., idx] if a.ndim == 3 else a, 0.0, -1.0, wit, pair,
+                rescue=make_rescue(b, c, E, wl.build(c, E[..., idx])) if with_inv else None,
                 zsolve=make_zsolve(b, c, E, wdir, E[..., idx], -wdir))
 
 
@@ -291,7 +291,11 @@ def make(rng, i, allk):
     # non-default generation parameters for a third of the cases (a viscous stress contribution, which ST4 switches
     # off by default, adds a vector along the wind to the stress)
     gp = [None, None, {"viscous_stress_parameter": 0.04}, {"charnock_constant": 0.015, "viscous_stress_parameter": 0.1}][int(rng.integers(0, 4))]
-    c.update({"pair": pair, "gen_params": gp, "dis_params": None, "ks": [int(k) for k in rng.integers(1, nd, 3)],
+    # non-default dissipation parameters for a third of the ST4 cases (directional control of the saturation term)
+    dp = None
+    if pair.endswith("/st4") and rng.uniform() < 0.35:
+        dp = {"saturation_breaking_directional_control": float(rng.choice([0.3, 0.6, 1.0]))}
+    c.update({"pair": pair, "gen_params": gp, "dis_params": dp, "ks": [int(k) for k in rng.integers(1, nd, 3)],
               "phi": float(rng.uniform(1.0, 359.0)),
               "allk": allk, "inversion": bool(c["kind"].split("+")[0] in ("windsea", "mixed", "veering") and i % 2 == 0)})
     return c
